@@ -8,7 +8,9 @@ import (
 	"net/url"
 
 	"github.com/thushan/olla/internal/app/middleware"
+	"github.com/thushan/olla/internal/core/constants"
 	"github.com/thushan/olla/internal/core/domain"
+	"github.com/thushan/olla/internal/core/ports"
 	"github.com/thushan/olla/internal/zzverif/gosym"
 )
 
@@ -49,6 +51,11 @@ func VerifProxyErrorRelay() {
 		px.fail = errors.New("connection lost after 0.1s while reading response - LLM backend disconnected unexpectedly")
 	}
 	a := zzApp(s, healthy, px)
+	if gosym.Choice("request-names-a-model", 2) == 1 {
+		// the request names a model and the routing layer routed it (decision status 200)
+		a.inspectorChain.AddInspector(zzModelInspector{"m1"})
+		a.modelRegistry = &zzRoutedRegistry{}
+	}
 	w := &zzW{h: http.Header{}}
 	ctx := context.WithValue(context.Background(), middleware.RequestIDKey, "req-1")
 	path := "/olla/proxy/api/chat"
@@ -82,4 +89,12 @@ func VerifProxyErrorRelay() {
 	}
 	gosym.AssertKF(same, "C02: once a backend's response has started the client's body is exactly the bytes that backend produced (Olla appends nothing)", "KF-C02-2", gosym.And(failed, !hasCT))
 	_ = bytes.Equal
+}
+
+
+// zzRoutedRegistry routes every model to all healthy endpoints (decision "routed", status 200).
+type zzRoutedRegistry struct{ domain.ModelRegistry }
+
+func (zzRoutedRegistry) GetRoutableEndpointsForModel(_ context.Context, _ string, healthy []*domain.Endpoint) ([]*domain.Endpoint, *domain.ModelRoutingDecision, error) {
+	return healthy, ports.NewRoutingDecision("zz", ports.RoutingActionRouted, constants.RoutingReasonModelFound), nil
 }
